@@ -82,7 +82,7 @@ CellFrags(cs, sp, cl) ==
   LET ch == ChAt(cs, cl[1], cl[2])
       rs == Rules(ch, Neigh(cs, sp, cl))
       fired == FoldLeft(LAMBDA lst, ru : IF ru[1] THEN lst \o ru[2] ELSE lst, <<>>, rs)
-  IN IF fired = <<>> THEN << [k |-> "T", cell |-> cl, s |-> <<ch>>] >>
+  IN IF fired = <<>> THEN << [k |-> "T", cell |-> cl, s |-> <<ch>>, cells |-> <<cl>>] >>
      ELSE LET sorted == StableSort(fired, FragLt) IN
           [i \in 1..Len(sorted) |-> Shift(sorted[i], cl) @@ [cells |-> <<cl>>]]
 \* FragmentBuffer is a BTreeMap: cells come out in (y, x) order whatever order they went in
@@ -90,21 +90,23 @@ SpanFrags(cs, sp) == FoldLeft(LAMBDA lst, cl : lst \o CellFrags(cs, sp, cl), <<>
 
 ------------------------------------------------------------------------
 (* stage 8: merge fragments                                                                *)
+\* a text occupies as many cells as the display widths of its characters add up to
+TextWidth(s) == FoldLeft(LAMBDA n, c : n + (IF WideCp(c) THEN 2 ELSE 1), 0, s)
 Touching(l1, l2) == OnSeg(l2.s, l1.s, l1.e) \/ OnSeg(l2.e, l1.s, l1.e) \/ OnSeg(l1.s, l2.s, l2.e) \/ OnSeg(l1.e, l2.s, l2.e)
 FragCan(x, z) ==
   IF x.k = "L" /\ z.k = "L" THEN Touching(x, z) /\ Collinear(x.s, x.e, z.s) /\ Collinear(x.s, x.e, z.e)
   ELSE IF x.k = "T" /\ z.k = "T"
-    THEN x.cell[2] = z.cell[2] /\ (x.cell[1] + Len(x.s) = z.cell[1] \/ z.cell[1] + Len(z.s) = x.cell[1])
+    THEN x.cell[2] = z.cell[2] /\ (x.cell[1] + TextWidth(x.s) = z.cell[1] \/ z.cell[1] + TextWidth(z.s) = x.cell[1])
   ELSE FALSE
 FragMrg(x, z) ==
   IF x.k = "L" THEN [k |-> "L", s |-> PMin(x.s, z.s), e |-> PMax(x.e, z.e), b |-> (x.b \/ z.b), cells |-> x.cells \o z.cells]
-  ELSE IF x.cell[1] < z.cell[1] THEN [k |-> "T", cell |-> x.cell, s |-> x.s \o z.s]
-  ELSE [k |-> "T", cell |-> z.cell, s |-> z.s \o x.s]
+  ELSE IF x.cell[1] < z.cell[1] THEN [k |-> "T", cell |-> x.cell, s |-> x.s \o z.s, cells |-> x.cells \o z.cells]
+  ELSE [k |-> "T", cell |-> z.cell, s |-> z.s \o x.s, cells |-> x.cells \o z.cells]
 Merged(cs, sp) == MergeRec(SpanFrags(cs, sp), FragCan, FragMrg)
 
 ------------------------------------------------------------------------
 (* stage 9: contact groups; stage 10: rect endorsement                                     *)
-TextCells(tx) == { <<tx.cell[1] + i, tx.cell[2]>> : i \in 0..(Len(tx.s) - 1) }
+TextCells(tx) == { <<tx.cell[1] + i, tx.cell[2]>> : i \in 0..(TextWidth(tx.s) - 1) }
 EndTouch(x, z) == x.s = z.s \/ x.e = z.e \/ x.s = z.e \/ x.e = z.s
 FragContact(x, z) ==
   IF x.k = "L" /\ z.k = "L" THEN Touching(x, z)
@@ -157,7 +159,8 @@ Endorsable(GG) == IsRectGroup(GG) \/ IsRoundedGroup(GG)
 ------------------------------------------------------------------------
 (* stages 11-12: rejected groups go back to cells, are regrouped into spans and fragmented *)
 (* again in isolation                                                                      *)
-GroupCells(GG) == FoldLeft(LAMBDA lst, fr : lst \o (IF fr.k = "T" THEN SortSet(TextCells(fr), PLt) ELSE fr.cells), <<>>, GG)
+\* (a fragment remembers the cells whose characters produced it: FragmentSpan.span)
+GroupCells(GG) == FoldLeft(LAMBDA lst, fr : lst \o fr.cells, <<>>, GG)
 SpanResult(cs, sp) ==
   LET groups == ContactsOf(Merged(cs, sp))
       rects == SelectSeq(groups, Endorsable)
